@@ -20,7 +20,7 @@ YOUR TASK: produce ONE realistic change to the project's source (under {wt}/crat
  (2) the project's existing test suite still passes: run
        cd {wt} && cargo nextest run --workspace --no-fail-fast --offline --test-threads 8 2>&1 | tail -15
      (if nextest is unavailable: cargo test --workspace --no-fail-fast --offline). All tests that pass before your change must pass after it. The build takes a few minutes the first time.
- (3) you have a DEMONSTRATION: a small Rust test or program (put it in {wt}/seed_demo/ as a standalone file or cargo test file, plus a README saying exactly how to run it) that FAILS with your change and PASSES without it (verify both, e.g. using `git stash`).
+ (3) you have a DEMONSTRATION: a small Rust test or program (put it in {wt}/seed_demo/ as a standalone file or cargo test file, plus a README saying exactly how to run it) that FAILS with your change and PASSES without it (verify both; toggle your change with `git diff -- crates > /tmp/mine.diff; git apply -R /tmp/mine.diff` and `git apply /tmp/mine.diff` using a file name of your own - do NOT use `git stash`, the stash is shared with other worktrees of this repository).
 
 The change must be subtle: the kind of bug a maintainer could plausibly introduce in a refactor (an off-by-one, a swapped argument, a dropped check, a wrong boundary, a stale cache, a missing case for one constructor, an ordering change), and it must need something SPECIFIC to manifest — a particular unusual input, a boundary value, a multi-step sequence of operations, a particular configuration, or two cooperating sites that each look fine alone — NOT something ordinary use would expose at once (if it broke every program the existing tests would catch it). Do not add new public API; do not touch tests; keep the diff small (ideally < 25 lines). Do not break the build of other crates. {extra}
 
